@@ -8,7 +8,7 @@ Numeric policy (DESIGN 2.4): |a-b| <= tol * (1 + scale), scale = largest magnitu
 tol = 1e-9, or 1e-7 for outputs that contain a linear solve.  NaN/Inf on either side is a disagreement."""
 import sys, math, json
 
-SOLVE_LABELS = {"qdd", "lambda", "qdplus", "impulse", "tauc", "force"}
+SOLVE_LABELS = {"qdd", "lambda", "qdplus", "impulse", "tauc", "force", "ltlsolve"}
 
 def parse(path):
     """-> {case: {(tag, seq, label): [tokens]}}, order list"""
@@ -20,7 +20,7 @@ def parse(path):
             if p[0] == "case": cur = p[1]; res[cur] = {"_done": False}; order.append(cur)
             elif p[0] == "endcase":
                 if cur is not None: res[cur]["_done"] = True
-            elif p[0] in ("o", "s", "i") and cur is not None and len(p) >= 3:
+            elif p[0] in ("o", "s", "i", "c") and cur is not None and len(p) >= 3:
                 key = (p[0], p[1], p[2]); k2 = key; n = 0
                 while k2 in res[cur]: n += 1; k2 = (p[0], p[1], p[2] + "#%d" % n)
                 res[cur][k2] = p[3:]
@@ -49,10 +49,10 @@ def cmp_tokens(a, b, tol):
     if worst: return "token %d: %s vs %s (|diff| %.3g, scale %.3g, tol %.1g)" % (worst[1], worst[2], worst[3], worst[0], scale, tol)
     return None
 
-def compare(impl_path, model_path, tol=1e-9, tol_solve=1e-7, skip_labels=(), cond_max=1e6):
+def compare(impl_path, model_path, tol=1e-9, tol_solve=1e-7, skip_labels=(), cond_max=1e6, same=(), unchanged_on_reject=False):
     impl, order = parse(impl_path); model, _ = parse(model_path)
     rep = {"cases": len(order), "corr_lines": 0, "oracle_lines": 0, "corr_mismatch": [], "oracle_mismatch": [], "crashed": [], "incomplete": [],
-           "discarded_ill_conditioned": 0, "max_cond": 0.0}
+           "discarded_ill_conditioned": 0, "max_cond": 0.0, "residual_lines": 0, "same_checked": 0}
     for c in order:
         I = impl[c]; M = model.get(c)
         if M is None: rep["incomplete"].append(c); continue
@@ -82,6 +82,40 @@ def compare(impl_path, model_path, tol=1e-9, tol_solve=1e-7, skip_labels=(), con
                 rep["oracle_lines"] += 1
                 d = cmp_tokens(toks, M[sk], t)
                 if d: rep["oracle_mismatch"].append({"case": c, "seq": int(seq), "label": label, "why": d})
+        # property residuals computed on the model side:  c <seq> <label> <residual> <scale>
+        for key, toks in M.items():
+            if key == "_done" or key[0] != "c": continue
+            rep["residual_lines"] += 1
+            r = tonum(toks[0]) if toks else None; sc = tonum(toks[1]) if len(toks) > 1 else 0.0
+            t = tol_solve
+            if ("i", key[1], "cond") in M:
+                cnd = tonum(M[("i", key[1], "cond")][0])
+                if cnd is None or not math.isfinite(cnd) or cnd > cond_max: continue
+                t = t * max(1.0, cnd / 100.0)
+            if r is None or not math.isfinite(r) or abs(r) > t * (1.0 + abs(sc or 0.0)):
+                rep["oracle_mismatch"].append({"case": c, "seq": int(key[1]), "label": key[2], "why": "property residual %s (scale %s, tol %.1g)" % (toks[0] if toks else "?", toks[1] if len(toks) > 1 else "?", t)})
+        for key, toks in M.items():
+            if key != "_done" and key[0] == "i" and key[2] == "wf" and toks and toks[0] != "1":
+                rep["oracle_mismatch"].append({"case": c, "seq": int(key[1]), "label": "wf", "why": "well-formedness predicate false: " + " ".join(toks[1:])})
+        if unchanged_on_reject:
+            for key, toks in I.items():
+                if key != "_done" and key[0] == "o" and key[2] == "add" and toks and toks[0] == "rejected":
+                    k = int(key[1])
+                    before = {kk[2]: v for kk, v in I.items() if kk != "_done" and kk[0] == "o" and kk[1] == str(k - 1)}
+                    after = {kk[2]: v for kk, v in I.items() if kk != "_done" and kk[0] == "o" and kk[1] == str(k + 1)}
+                    if "sizes" in before and "sizes" in after:
+                        rep["same_checked"] += 1
+                        for lab in before:
+                            if lab in ("ids", "jframes", "names"): continue   # these also list the rejected op itself
+                            if before[lab] != after.get(lab):
+                                rep["oracle_mismatch"].append({"case": c, "seq": k, "label": "reject_changed_model", "why": "field '%s' differs after a rejected addition" % lab}); break
+        for (cs, a, b, lab) in same:
+            if cs != c: continue
+            ka = ("o", str(a), lab); kb = ("o", str(b), lab)
+            if ka in I and kb in I:
+                rep["same_checked"] += 1
+                d = cmp_tokens(I[ka], I[kb], tol_solve if lab in SOLVE_LABELS else tol)
+                if d: rep["oracle_mismatch"].append({"case": c, "seq": int(b), "label": "same:" + lab, "why": "results of call %d and call %d differ: %s" % (a, b, d)})
         for key in M:
             if key != "_done" and key[0] == "o" and key not in I and key[2].split("#")[0] not in skip_labels:
                 rep["corr_mismatch"].append({"case": c, "seq": int(key[1]), "label": key[2], "why": "missing on the implementation side"})
